@@ -12,6 +12,7 @@ import (
 	"runtime/debug"
 	"sort"
 	"strings"
+	"sync/atomic"
 	"testing/synctest"
 	"time"
 	"unsafe"
@@ -29,18 +30,33 @@ var errInjected = errors.New("jsim: injected read error")
 // faultReader delivers data according to a plan fixed before the call (it never draws: Read runs
 // on the server's goroutine).
 type faultReader struct {
-	data    []byte
-	pos     int
-	cuts    map[int]bool // a Read never crosses one of these offsets
-	maxRead int          // >0: no Read returns more than this many bytes
-	zeroAt  map[int]bool // at these offsets one Read returns (0, nil) first
-	failAt  int          // >=0: at this offset the reader fails with failErr (sticky)
-	failErr error
+	data        []byte
+	pos         int
+	cuts        map[int]bool // a Read never crosses one of these offsets
+	maxRead     int          // >0: no Read returns more than this many bytes
+	zeroAt      map[int]bool // at these offsets one Read returns (0, nil) first
+	failAt      int          // >=0: at this offset the reader fails with failErr (sticky)
+	failErr     error
 	eofWithData bool // deliver the final error together with the last bytes
+	stallAt     int  // >=0: the Read that starts at this offset blocks until resume is closed (once)
+	resume      chan struct{}
+	resumed     bool
+	stalled     atomic.Bool // a Read is blocked at stallAt right now
 
 	// what actually happened
 	nCut, nShort, nZero, nFail int
 	served                     int
+	nReads, nStall             int
+}
+
+// letGo lets a stalled body go on (idempotent; main goroutine only).
+func (r *faultReader) letGo() bool {
+	if r.resume == nil || r.resumed {
+		return false
+	}
+	r.resumed = true
+	close(r.resume)
+	return true
 }
 
 func (r *faultReader) end() int {
@@ -58,6 +74,13 @@ func (r *faultReader) finalErr() error {
 }
 
 func (r *faultReader) Read(p []byte) (int, error) {
+	r.nReads++
+	if r.stallAt >= 0 && r.pos == r.stallAt && r.nStall == 0 {
+		r.nStall++
+		r.stalled.Store(true)
+		<-r.resume
+		r.stalled.Store(false)
+	}
 	end := r.end()
 	if r.pos >= end {
 		if r.failAt >= 0 {
@@ -187,14 +210,65 @@ const (
 
 func C11(c *sim.Ctx) {
 	t := c.T
-	class := []int{classPlain, classPlain, classReader, classSched}[t.Draw("class", 4)]
-	switch c.Knobs["only_class"] { // experiment aid (JSIM_KNOB_only_class=plain|reader|sched); not set by props
+	// the transport class: the same three kinds of run, with the input travelling as the body of an
+	// HTTP request through the real jsonrpc.HTTP handler (httpx.go)
+	// (httpx.go), or as a message on a WebSocket connection through the real jsonrpc.Websocket handler (wsx.go)
+	const viaHTTPClass, viaWSClass = -1, -2
+	class := []int{classPlain, classPlain, classReader, classSched, viaHTTPClass, viaHTTPClass, viaWSClass}[t.Draw("class", 7)]
+	switch c.Knobs["only_class"] { // experiment aid (JSIM_KNOB_only_class=plain|reader|sched|http|http_plain|http_reader|http_sched|ws|ws_plain|ws_frag|ws_sched); not set by props
 	case "plain":
 		class = classPlain
 	case "reader":
 		class = classReader
 	case "sched":
 		class = classSched
+	case "http", "http_plain", "http_reader", "http_sched":
+		class = viaHTTPClass
+	case "ws", "ws_plain", "ws_frag", "ws_sched":
+		class = viaWSClass
+	}
+	viaHTTP, viaWS, wsFrag := class == viaHTTPClass, class == viaWSClass, false
+	if viaWS {
+		// plain / the message split into frames and the frames into writes / scheduling
+		switch k := t.Draw("ws_inner", 4); {
+		case c.Knobs["only_class"] == "ws_plain":
+			class = classPlain
+		case c.Knobs["only_class"] == "ws_frag":
+			class, wsFrag = classPlain, true
+		case c.Knobs["only_class"] == "ws_sched" || k >= 2:
+			class = classSched
+		case k == 1:
+			class, wsFrag = classPlain, true
+		default:
+			class = classPlain
+		}
+	}
+	if viaHTTP {
+		class = []int{classPlain, classReader, classSched, classSched}[t.Draw("http_inner", 4)]
+		switch c.Knobs["only_class"] {
+		case "http_plain":
+			class = classPlain
+		case "http_reader":
+			class = classReader
+		case "http_sched":
+			class = classSched
+		}
+	}
+	// vc: violations found through the HTTP transport carry that in their class, except the classes of
+	// the suspected defects of the dispatcher (classify.go), which are the same defect on every path
+	vc := func(cls string) string {
+		if !viaHTTP && !viaWS {
+			return cls
+		}
+		for _, r := range allRelax {
+			if cls == r {
+				return cls
+			}
+		}
+		if viaWS {
+			return "ws_" + cls
+		}
+		return "http_" + cls
 	}
 	g := &gen{t: t, sched: class == classSched, biased: class == classSched && !t.Chance("sched_unbiased", 1, 5)}
 	input, label := g.input()
@@ -206,11 +280,11 @@ func C11(c *sim.Ctx) {
 	careful := hangProne || poisoned()
 
 	poolSize := []int{1, 2, 3, 8, 16}[t.Draw("pool", 5)]
-	useRW := t.Chance("read_writer", 1, 4)
+	useRW := !viaHTTP && !viaWS && t.Chance("read_writer", 1, 4)
 	traceLog := t.Chance("trace_logger", 1, 4)
 
 	// the reader plan
-	rd := &faultReader{data: input, failAt: -1, cuts: map[int]bool{}, zeroAt: map[int]bool{}}
+	rd := &faultReader{data: input, failAt: -1, stallAt: -1, cuts: map[int]bool{}, zeroAt: map[int]bool{}}
 	effective := input // the byte sequence the server is given
 	hardFault := false // a non-EOF read error is planned
 	if class == classReader {
@@ -251,11 +325,30 @@ func C11(c *sim.Ctx) {
 
 	// scheduling class knobs
 	cancelAllowed := class == classSched && t.Chance("cancel_enabled", 1, 3)
+	if viaWS {
+		// the only context a WebSocket connection has is the connection's: cancelling it takes the
+		// connection away and with it everything that could be observed
+		cancelAllowed = false
+	}
 	timeout := time.Duration(0)
 	if useRW && cancelAllowed && !hangProne && t.Chance("timeout_instead_of_cancel", 1, 2) {
 		// (not for hang-prone inputs: after a hang the fake clock cannot be advanced any more, and
 		// the run must still replay in the same process)
 		timeout = 5 * time.Second
+	}
+	var hp *httpPlan
+	if viaHTTP {
+		hp = planHTTP(t, class == classSched, hangProne, len(input))
+		timeout = hp.timeout
+		if hp.stallAt >= 0 {
+			rd.stallAt, rd.resume = hp.stallAt, make(chan struct{})
+			rd.cuts[hp.stallAt] = true // the Read before ends there, so that one Read starts there
+		}
+	}
+	var wp *wsPlan
+	if viaWS {
+		wp = planWS(t, class == classSched, wsFrag, hangProne, len(input))
+		timeout = wp.timeout
 	}
 	if poisoned() && (timeout > 0 || (hangProne && hangsLeft >= maxHangsLeftBehind)) {
 		c.Inconclusive++
@@ -264,8 +357,19 @@ func C11(c *sim.Ctx) {
 
 	cl := classifyInput(effective)
 	c.Logf("class=%d gen=%s pool=%d rw=%v trace=%v len=%d input=%q", class, label, poolSize, useRW, traceLog, len(input), clip(string(input), 400))
+	if viaHTTP {
+		c.Logf("transport=http %s", hp)
+		c.Probe("http_transport")
+	}
+	if viaWS {
+		c.Logf("transport=websocket timeout=%v binary=%v frames-at=%v writes=%d max-conn=%d", wp.timeout, wp.binary, wp.frags, len(wp.segs), wp.maxConn)
+		c.Probe("ws_transport")
+	}
 	c.Logf("input-hash %x effective=%d classified=%s", fnv(input), len(effective), cl.summary)
 	c.Sample = map[string]any{"class": class, "generator": label, "classified": cl.summary, "input": clip(string(input), 300)}
+	if viaHTTP {
+		c.Sample.(map[string]any)["http"] = hp.String()
+	}
 
 	// the server
 	var logger log.StructuredLogger = log.NewNopZapLogger()
@@ -277,15 +381,43 @@ func C11(c *sim.Ctx) {
 	srv := jsonrpc.NewServer(poolSize, logger)
 	rec := &recorder{park: class == classSched}
 	c.Must(register(srv, rec), "register methods")
+	if viaWS {
+		c.Must(srv.RegisterMethods(jsonrpc.Method{Name: sentinelMethod, Handler: func() (any, *jsonrpc.Error) { return "pong", nil }}), "register the sentinel method")
+	}
 
 	ctx, cancel := context.WithCancel(context.Background())
+	// what the scheduler did to the exchange (HTTP and WebSocket classes)
+	deadlineFired := false   // the fake clock was moved past the transport's request timeout
+	clientCancelled := false // the request's context was cancelled
+	releasedBefore := 0      // handler groups released before the deadline fired
+	var hx *httpRun
+	if viaHTTP {
+		hx = newHTTPRun(c, hp, srv, logger, ctx, rd)
+		if hp.preCancelled {
+			cancel()
+			clientCancelled = true
+			c.Logf("the request's context is cancelled before the call")
+			c.Fault("http_client_cancel")
+			c.Probe("http_client_cancel_before_call")
+		}
+	}
+	var wsx *wsRun
+	if viaWS {
+		wsx = newWSRun(wp, srv, logger, ctx)
+	}
 	serve := func() (res callResult) {
 		defer func() {
 			if r := recover(); r != nil {
 				res.panicked, res.panicVal, res.stack = true, r, string(debug.Stack())
 			}
 		}()
-		if useRW {
+		if viaHTTP {
+			// the output is what the handler wrote to hx.w; it is read after the call has returned
+			hx.h.ServeHTTP(hx.w, hx.req)
+		} else if viaWS {
+			// the whole life of the connection; the output is what the client end received
+			wsx.h.ServeHTTP(wsx.w, wsx.req)
+		} else if useRW {
 			rw := &rwPair{Reader: rd}
 			res.err = srv.HandleReadWriter(ctx, timeout, rw)
 			res.out = rw.w.Bytes()
@@ -296,7 +428,7 @@ func C11(c *sim.Ctx) {
 	}
 
 	var res callResult
-	obs := &observed{}
+	obs := &observed{cancelled: clientCancelled}
 	joined := false
 	shape := "other"
 	if len(cl.cands) > 0 && cl.structured {
@@ -325,6 +457,23 @@ func C11(c *sim.Ctx) {
 	// clean-up, so that the next run finds a quiet bubble (wait.go): get goroutines that are stuck on
 	// a mutex moving by unlocking it for whoever left it locked, release every handler, join. If that
 	// does not bring the call back, its goroutines are left behind and the process is poisoned.
+	// releaseExtra lets go of whatever else the harness holds the server back with: a stalled body,
+	// the slots of the admission gate
+	releaseExtra := func() int {
+		n := 0
+		if rd.letGo() {
+			n++
+		}
+		if hx != nil {
+			n += hx.releaseGate()
+		}
+		if wsx != nil && !wsx.closed {
+			wsx.abort()
+			n++
+		}
+		return n
+	}
+	failClass := "hang" // (the same clean-up serves one other verdict reached while the call is still in flight)
 	hang := func(key, format string, a ...any) {
 		cancel()
 		noteUnser()
@@ -334,7 +483,7 @@ func C11(c *sim.Ctx) {
 			rounds = 0
 		}
 		for round := 0; round < rounds; round++ {
-			released := rec.releaseAll()
+			released := rec.releaseAll() + releaseExtra()
 			_, locked := settle(c, never, 0)
 			if locked > 0 {
 				if n, ok := unstickOnce(); !ok || n == 0 {
@@ -361,7 +510,7 @@ func C11(c *sim.Ctx) {
 		if !recovered {
 			poison(c)
 		}
-		c.Fail("hang", key+"("+shape+")", format, a...)
+		c.Fail(vc(failClass), key+"("+shape+")", format, a...)
 	}
 	finish := func() {
 		// join everything this run started
@@ -371,6 +520,7 @@ func C11(c *sim.Ctx) {
 		joined = true
 		cancel()
 		rec.releaseAll()
+		releaseExtra()
 		if r := poolWait(srv); r != nil {
 			msg := fmt.Sprint(r)
 			if strings.Contains(msg, "/jsonrpc/") {
@@ -404,7 +554,7 @@ func C11(c *sim.Ctx) {
 		}
 	}
 
-	if class != classSched {
+	if class != classSched && !viaWS {
 		if !careful {
 			res = serve()
 		} else {
@@ -421,9 +571,26 @@ func C11(c *sim.Ctx) {
 		finish()
 	} else {
 		start := time.Now()
+		if viaWS {
+			nf, nw := wsx.sendMessage(input)
+			if nf > 1 {
+				c.Fault("ws_fragmented_message")
+			}
+			if nw > 1 {
+				c.Fault("ws_segmented_write")
+			}
+			if wp.binary {
+				c.Probe("ws_binary_message")
+			}
+		}
 		go func() { done <- serve() }()
 		finished := false
+		wsClockUsed := false
 		steps, reorders := 0, 0
+		tp := "http" // prefix of the probes of the transport classes
+		if viaWS {
+			tp = "ws"
+		}
 		maxParked := 0
 		for !finished {
 			locked := wait(4)
@@ -434,12 +601,66 @@ func C11(c *sim.Ctx) {
 			default:
 			}
 			keys, show := rec.parkedGroups()
-			if len(keys) == 0 {
+			// HTTP: the request can also be waiting for a slot of the admission gate or for the rest
+			// of its body; then the scheduler has something else to let go of
+			gateWaiting := hx != nil && hx.gateHeld > 0
+			bodyStalled := rd.stalled.Load()
+			if wsx != nil && len(keys) == 0 {
+				// The server is at rest and waits for no handler: either it is reading the connection
+				// (the message has been dealt with) or it is stuck.
+				msgs, gotClose, _, _ := wsx.client.snapshot()
+				stuck := ""
+				switch {
+				case wsx.phase == 0 && !gotClose:
+					wsx.sendSentinel()
+					c.Logf("server at rest: send the sentinel request")
+					continue
+				case wsx.phase == 1 && len(msgs) > wsx.nBefore:
+					ans, perr := parseExact(msgs[wsx.nBefore])
+					ok := perr == nil && len(msgs) == wsx.nBefore+1 && ans.k == jObj
+					if ok {
+						id, has := ans.get("id")
+						r, hasR := ans.get("result")
+						ok = has && hasR && id.k == jStr && id.s == "jsim-sentinel" && r.k == jStr && r.s == "pong"
+					}
+					if !ok {
+						failClass = "next_message"
+						hang("next_request_on_connection_answered_wrongly", "the request sent after the message under test on the same connection got %q; input %q", clip(string(msgs[wsx.nBefore]), 200), clip(string(input), 400))
+					}
+					c.Probe("ws_next_message_answered")
+					wsx.client.sendClose()
+					wsx.phase = 2
+					c.Logf("sentinel answered: close the connection")
+					continue
+				case wsx.phase == 1 && !gotClose:
+					// it has not taken the next message from the connection and has not closed it
+					stuck = "no_parked_handler"
+				default:
+					// the close handshake is under way (started by the client in phase 2, by the server
+					// otherwise) and the call has not returned: the library may be waiting on one of
+					// its own timers (5 s, 15 s) - let them pass once
+					if gotClose && wsx.phase < 2 {
+						c.Probe("ws_server_closed_first")
+					}
+					if !wsClockUsed && !careful {
+						wsClockUsed = true
+						c.Logf("closing: let the library's timers pass")
+						time.Sleep(21 * time.Second)
+						continue
+					}
+					stuck = "connection_close_does_not_complete"
+				}
+				if locked > 0 {
+					stuck = "blocked_on_lock"
+				}
+				hang(stuck, "the connection's handler does not return and waits for nothing the client could still do (phase %d, close frame received: %v, %d goroutine(s) blocked on a lock); input %q", wsx.phase, gotClose, locked, clip(string(input), 400))
+			}
+			if len(keys) == 0 && !gateWaiting && !bodyStalled {
 				// quiescent, nothing to release, no answer: the call hangs.
 				if locked > 0 {
 					hang("blocked_on_lock", "the call does not return: no handler is left to release and %d goroutine(s) of the server are blocked acquiring a lock that nobody will release; input %q", locked, clip(string(input), 400))
 				}
-				hang("no_parked_handler", "HandleReader is blocked with no handler left to release; input %q", clip(string(input), 400))
+				hang("no_parked_handler", "the call is blocked with no handler left to release; input %q", clip(string(input), 400))
 			}
 			if len(keys) > maxParked {
 				maxParked = len(keys)
@@ -448,20 +669,75 @@ func C11(c *sim.Ctx) {
 				c.Inconclusive++
 				break
 			}
-			nopts := len(keys)
-			if cancelAllowed && !obs.cancelled {
-				nopts++
+			// what the scheduler can do now: let one group of handlers finish, or one of the other events
+			const (
+				optCancel   = iota // the caller's context is cancelled (direct calls: or the request timeout of HandleReadWriter passes)
+				optGate            // HTTP: the requests holding the gate's slots finish
+				optBody            // HTTP: the rest of the body arrives
+				optDeadline        // HTTP: the fake clock passes the handler's request timeout
+			)
+			var extra []int
+			if wsx != nil {
+				if timeout > 0 && !deadlineFired {
+					extra = append(extra, optDeadline)
+				}
+			} else if hx == nil {
+				if cancelAllowed && !obs.cancelled {
+					extra = append(extra, optCancel)
+				}
+			} else {
+				if gateWaiting {
+					extra = append(extra, optGate)
+				}
+				if bodyStalled {
+					extra = append(extra, optBody)
+				}
+				if timeout > 0 && !deadlineFired {
+					extra = append(extra, optDeadline)
+				}
+				// (a client that goes away while its body is still arriving makes the body fail, not
+				// stall; that is the reader class, not this one)
+				if cancelAllowed && !clientCancelled && !bodyStalled {
+					extra = append(extra, optCancel)
+				}
 			}
-			pick := t.Draw("sched", nopts)
+			pick := t.Draw("sched", len(keys)+len(extra))
 			if pick < len(keys) {
 				if pick > 0 {
 					reorders++
 				}
 				n := rec.releaseGroup(keys[pick])
 				c.Logf("release %s x%d (of %d distinct parked)", show[pick], n, len(keys))
-			} else {
+				if (hx != nil || wsx != nil) && timeout > 0 {
+					if deadlineFired {
+						c.Probe(tp + "_handler_released_after_deadline")
+					} else {
+						releasedBefore++
+					}
+				}
+				continue
+			}
+			switch extra[pick-len(keys)] {
+			case optCancel:
 				obs.cancelled = true
-				if timeout > 0 {
+				if hx != nil {
+					clientCancelled = true
+					c.Logf("client gone: cancel the request's context with %d distinct parked", len(keys))
+					cancel()
+					c.Fault("http_client_cancel")
+					switch {
+					case timeout > 0 && deadlineFired:
+						c.Probe("http_client_cancel_after_deadline")
+					case timeout > 0:
+						c.Probe("http_client_cancel_before_deadline")
+					}
+					if gateWaiting {
+						c.Probe("http_gate_cancel_while_queued")
+					}
+					if len(keys) == 0 {
+						break
+					}
+				} else if timeout > 0 {
 					c.Logf("advance clock beyond the request timeout with %d distinct parked", len(keys))
 					time.Sleep(timeout + time.Millisecond)
 				} else {
@@ -470,12 +746,43 @@ func C11(c *sim.Ctx) {
 				}
 				c.Fault("ctx_cancel")
 				c.Probe("cancel_while_parked")
+			case optGate:
+				n := hx.releaseGate()
+				c.Logf("the %d request(s) holding the gate finish", n)
+				c.Probe("http_gate_admitted_after_wait")
+			case optBody:
+				rd.letGo()
+				c.Logf("the body goes on at offset %d", rd.stallAt)
+				if deadlineFired {
+					c.Probe("http_body_completed_after_deadline")
+				}
+			case optDeadline:
+				deadlineFired = true
+				obs.cancelled = true // handlers that watch their context may report that they were cut off
+				c.Logf("advance clock beyond the request timeout (%v) with %d distinct parked, gate-waiting=%v body-stalled=%v", timeout, len(keys), gateWaiting, bodyStalled)
+				time.Sleep(timeout + time.Millisecond)
+				c.Fault(tp + "_request_deadline")
+				switch {
+				case gateWaiting:
+					c.Probe("http_gate_timeout_while_queued")
+				case bodyStalled:
+					c.Probe("http_deadline_during_body_read")
+				case len(keys) > 0:
+					c.Probe(tp + "_deadline_before_handler_done")
+					if shape == "batch" && releasedBefore > 0 {
+						c.Probe(tp + "_batch_straddles_deadline")
+					}
+				}
+				if clientCancelled {
+					c.Probe("http_deadline_after_client_cancel")
+				}
 			}
 		}
 		if !finished {
 			// step cap: let everything run out, judge nothing
 			for i := 0; i < 1000 && !finished; i++ {
 				rec.releaseAll()
+				releaseExtra()
 				wait(4)
 				select {
 				case res = <-done:
@@ -536,10 +843,99 @@ func C11(c *sim.Ctx) {
 	obs.out, obs.err = res.out, res.err
 	obs.invs = rec.snapshot()
 
+	if viaHTTP {
+		// what the client of the exchange has in hand
+		if rd.nStall > 0 {
+			c.Fault("http_body_stall")
+		}
+		if hp.timeout > 0 {
+			c.Probe("http_request_timeout_configured")
+			if class == classSched && !deadlineFired && len(obs.invs) > 0 {
+				c.Probe("http_handlers_done_before_deadline")
+			}
+		}
+		if hp.gate {
+			c.Probe("http_gate_configured")
+			if hp.occupy {
+				c.Fault("http_gate_contention")
+			}
+		}
+		if hp.listener && hx.lst.n.Load() != 1 {
+			c.Probe("http_listener_not_called_once") // not part of the property; visible in the evidence only
+		}
+		rcv := hx.clientView(rd.nReads, len(obs.invs))
+		c.Logf("http status=%d header-writes=%d refused=%v", rcv.status, hx.w.nHeader, rcv.refused)
+		c.Nontrivial = cl.structured || len(c.Faults) > 0
+		if rcv.v != nil {
+			c.Fail(vc(rcv.v.class), rcv.v.key, "%s; status %d; input %q", rcv.v.detail, rcv.status, clip(string(input), 600))
+		}
+		if rcv.refused {
+			// Turned away by the transport before a single byte of the request was read: the server
+			// has not received a request, and the statement says nothing about admission control.
+			// Checked: the call came back, nothing crashed, no handler ran.
+			c.Logf("refused: %q", clip(string(rcv.body), 80))
+			switch {
+			case hp.gate && hp.occupy && deadlineFired:
+				// (probe http_gate_timeout_while_queued counted by the scheduler)
+			case hp.gate && hp.occupy && !clientCancelled:
+				c.Probe("http_gate_busy_rejected")
+			default:
+				// nothing the harness did explains the refusal: not a matter of this property, but
+				// not something to pass over silently either
+				c.Probe("http_refused_unexplained")
+				c.Inconclusive++
+			}
+			return
+		}
+		if clientCancelled && len(rcv.body) == 0 {
+			// the client went away before the call returned: there is nobody an answer could be owed to
+			c.Logf("no body; the client had gone")
+			c.Probe("http_no_body_after_client_cancel")
+			return
+		}
+		if hx.w.sent.Get("Content-Encoding") != "" && len(rcv.body) > 0 {
+			c.Probe("http_gzip_body")
+		}
+		if hx.w.sent.Get("X-Jsim") != "" {
+			c.Probe("http_handler_header_forwarded")
+		}
+		obs.out = rcv.body
+	}
+
+	if viaWS {
+		// what the client end of the connection received (the client has been shut by finish())
+		msgs, gotClose, closeCode, perr := wsx.client.snapshot()
+		c.Nontrivial = cl.structured || len(c.Faults) > 0
+		if wsx.w.status != 101 || !wsx.w.hijacked {
+			c.Broken("the upgrade request was not accepted: status %d, body %q", wsx.w.status, clip(wsx.w.body.String(), 200))
+		}
+		if wp.timeout > 0 {
+			c.Probe("ws_request_timeout_configured")
+		}
+		first := msgs
+		if wsx.phase >= 1 && len(first) > wsx.nBefore {
+			first = msgs[:wsx.nBefore]
+		}
+		c.Logf("websocket: %d message(s) for the message under test, phase=%d close-frame=%v code=%d", len(first), wsx.phase, gotClose, closeCode)
+		if perr != "" {
+			c.Fail(vc("malformed_output"), "frame_"+perr, "the server sent a frame the client cannot accept (%s); input %q", perr, clip(string(input), 600))
+		}
+		if len(first) > 1 {
+			c.Fail(vc("malformed_output"), "several_messages_for_one_request", "%d messages were sent in answer to one message: %q ...; input %q", len(first), clip(string(first[0]), 200), clip(string(input), 600))
+		}
+		obs.out = nil
+		if len(first) == 1 {
+			obs.out = first[0]
+			if len(obs.out) == 0 {
+				c.Fail(vc("malformed_output"), "empty_message", "an empty message was sent in answer; input %q", clip(string(input), 600))
+			}
+		}
+	}
+
 	// log the outcome in a schedule-independent form
 	if v := readOutput(obs); v != nil {
 		c.Logf("output %q", clip(string(obs.out), 300))
-		c.Fail(v.class, v.key, "%s; input %q", v.detail, clip(string(input), 600))
+		c.Fail(vc(v.class), v.key, "%s; input %q", v.detail, clip(string(input), 600))
 	}
 	{
 		var rs, is []string
@@ -610,7 +1006,28 @@ func C11(c *sim.Ctx) {
 		if hardFault && rd.nFail > 0 && (cls == "correlation" || cls == "invocation" || cls == "shape") {
 			cls = "fault_" + cls // judged under the reader-fault relaxation
 		}
-		c.Fail(cls, v.key, "%s; input %q", v.detail, clip(string(input), 800))
+		if (viaHTTP || viaWS) && vc(cls) != cls && len(obs.out) == 0 {
+			// (a more specific name for what the verdict says anyway) no body at all, although no
+			// reading of the input makes it a message of notifications only
+			silentOK := false
+			for i := range cands {
+				if cands[i].relax == "" && match(&cands[i], &observed{shape: "none"}, map[string]bool{}, false).ok {
+					silentOK = true
+				}
+			}
+			if !silentOK {
+				when := ""
+				if deadlineFired {
+					when = "_after_request_timeout"
+				}
+				if viaWS {
+					c.Fail(vc("unanswered"), "no_message_for_request_with_id("+shape+")"+when, "no message was sent in answer (request timeout passed: %v): %s; input %q", deadlineFired, v.detail, clip(string(input), 800))
+				}
+				c.Fail(vc("unanswered"), "empty_body_for_request_with_id("+shape+")"+when, "status %d and an empty body (client still there: %v, request timeout passed: %v): %s; input %q",
+					hx.w.status, !clientCancelled, deadlineFired, v.detail, clip(string(input), 800))
+			}
+		}
+		c.Fail(vc(cls), v.key, "%s; input %q", v.detail, clip(string(input), 800))
 	}
 	if hardFault && rd.nFail > 0 {
 		c.Probe("fault_read_error_judged")
